@@ -172,6 +172,12 @@ func genChoice(r *vh.Rng) choiceCase {
 			c.created = snap(c.created, true)
 		}
 		k := int64(vh.Pick(r, []int{0, 0, 1, 1, 1, 2, 2, 3, 5, 8, 20, 101, 150}))
+		// stay before 2070: time.Time <-> int64 nanoseconds ends in 2262, and "0 0 29 2 *"
+		// has no point within robfig's five-year horizon after 2096 (Next answers the zero
+		// time there, on which the catch-up loop of mostRecentScheduleTime never ends)
+		if maxSpan := int64(40*365*86400) * sec; k > maxSpan/gap {
+			k = maxSpan / gap
+		}
 		c.now = c.created + k*gap + int64(r.Intn(int(gap/sec)+1))*sec
 		if r.Chance(1, 10) {
 			c.now = c.created - int64(r.Intn(100))*sec // the clock is behind the creation stamp
